@@ -1,6 +1,6 @@
 SPECIFICATION Spec
 CONSTANT Scenarios <- MCScenarios
-CONSTANT Deviations = {}
+CONSTANT Deviations = {"NoIdentityCheck", "SpecialNoIdentityCheck", "ProbeFollowsLinks"}
 INVARIANTS InvC03 InvC08 InvC16 InvDirBeforeChild InvOutcome EmitPrediction
 PROPERTY Termination
 CHECK_DEADLOCK TRUE
